@@ -86,7 +86,7 @@ func symVal(name string) (bool, float64, LValue) {
 	return false, f, LNumber(f)
 }
 
-//verif:harness prop=C09 tier=quick qparams=steps:2,npool:2,nops:2 tparams=steps:2,npool:10,nops:4 bounds="histories of steps=2 stores; quick: 2 store operations and 2 pool numbers, thorough: 4 operations and 10 pool numbers; (RawSet/RawSetInt/RawSetString/RawSetH/LState.RawSet) from an empty table; keys: any 32-bit integer-valued number or one of 10 pool numbers (non-integral, huge, boundary) / 1-byte string / bool; MaxArrayIndex configured to 6 so the array part stays <= 5 slots; values nil or any float64; one symbolic probe key"
+//verif:harness prop=C09 tier=quick qparams=steps:2,npool:2,nops:2 tparams=steps:2,npool:11,nops:4 bounds="histories of steps=2 stores; quick: 2 store operations and 2 pool numbers, thorough: 4 operations and 10 pool numbers; (RawSet/RawSetInt/RawSetString/RawSetH/LState.RawSet) from an empty table; keys: any 32-bit integer-valued number or one of 10 pool numbers (non-integral, huge, boundary) / 1-byte string / bool; MaxArrayIndex configured to 6 so the array part stays <= 5 slots; values nil or any float64; one symbolic probe key"
 //verif:assume MaxArrayIndex (a package configuration variable) is set to 6: integer keys 1..5 use the array part, all other numbers the hash part
 func H_C09_map() {
 	MaxArrayIndex = 6
@@ -193,5 +193,76 @@ func H_C09_arraykey() {
 	want := VAnd(VAnd(f == math.Floor(f), f >= 1), f < float64(MaxArrayIndex))
 	VAssert(got == want, "arraykey: array key iff integral and 1 <= f < MaxArrayIndex")
 	VAssert(VImp(f != f, !got), "arraykey: NaN is never an array key")
+	VReach("end")
+}
+
+
+// C09.traverse — next visits every present key exactly once, also when visited fields are cleared
+// or overwritten during the traversal.
+//
+//verif:harness prop=C09 tier=quick qparams=nkeys:3 tparams=nkeys:4 bounds="tables built from nkeys (3 quick / 4 thorough) stores with keys from {array integers 1..4 (symbolic), 1-byte symbolic strings, booleans}; during the traversal each visited field is cleared, overwritten or left alone (by choice per table)"
+func H_C09_traverse() {
+	L := newL(Options{}, BaseLibName)
+	tb := L.NewTable()
+	nk := VParam("nkeys", 3)
+	var keys []LValue
+	for i := 0; i < nk; i++ {
+		var k LValue
+		switch VChoice(3) {
+		case 0:
+			b := VByte("ik")
+			VAssume(VAnd(b >= 1, b <= 4))
+			k = LNumber(int(b))
+		case 1:
+			k = LString(VStr("sk", 1))
+		default:
+			if VBool("bk") {
+				k = LTrue
+			} else {
+				k = LFalse
+			}
+		}
+		dup := false
+		for _, o := range keys {
+			if sameValue(o, k) {
+				dup = true
+			}
+		}
+		if !dup {
+			keys = append(keys, k)
+			L.RawSet(tb, k, LNumber(100+i))
+		}
+	}
+	mode := VChoice(3) // 0 leave, 1 clear the visited field, 2 overwrite the visited field
+	var seen []LValue
+	key := LValue(LNil)
+	for it := 0; it <= len(keys); it++ {
+		nk, nv := tb.Next(key)
+		if nk == LNil {
+			break
+		}
+		VAssert(it < len(keys), "traverse: terminates after at most the number of present keys")
+		for _, s := range seen {
+			VAssert(!sameValue(s, nk), "traverse: no key is visited twice")
+		}
+		found := false
+		for _, o := range keys {
+			if sameValue(o, nk) {
+				found = true
+			}
+		}
+		VAssert(found, "traverse: only present keys are visited")
+		VAssert(nv != LNil, "traverse: visited values are non-nil")
+		seen = append(seen, nk)
+		switch mode {
+		case 1:
+			L.RawSet(tb, nk, LNil)
+		case 2:
+			L.RawSet(tb, nk, LNumber(7))
+		}
+		key = nk
+	}
+	VAssert(len(seen) == len(keys), "traverse: every present key is visited, also when visited fields are cleared or overwritten on the way")
+	// ipairs stops at the first nil
 	VReach("end")
 }
